@@ -540,6 +540,12 @@ encodeResponse:
         *alertDescription = (unsigned char)ssl->err;
         *alertLevel = SSL_ALERT_LEVEL_FATAL;
         rc = tls13EncodeAlert(ssl, ssl->err, &tmp, requiredLen);
+        if (rc >= 0)
+        {
+            /* This is always a fatal alert: flag the session as failed
+               so that no further records are accepted on it. */
+            ssl->flags |= SSL_FLAGS_ERROR;
+        }
     }
     else
     {
